@@ -708,6 +708,7 @@ class Interp:
             for i, be in enumerate(spec.get("body_ensures", [])):
                 self.ctx.prove(self.truth(self.eval_spec(be, fr, entry=ent["entry"], extra={"__iter_start": iter_start})),
                                f"{fn}#loop{ordn}.body{i}", {"kind": "loop-body", "src": be})
+            self.ctx.event("for-body-end", fn, ordn)
             return NONE
 
         f, args = gen.f, gen.args
@@ -1602,9 +1603,9 @@ class Interp:
             f0 = fr
             while f0 is not None and getattr(f0, "on_yield", None) is None:
                 f0 = f0.parent
+            self.ctx.event("yield", v, fr.fdef.key if fr.fdef is not None else "?")     # every yield is recorded in the trace
             if f0 is not None:
                 return f0.on_yield(v)        # consumed by a for loop: its body runs now (for_generator)
-            self.ctx.event("yield", v)       # the generator under verification: yields are recorded in the trace
             return NONE
         h = self.reg.ext_models.get("yield")
         if h is None:
